@@ -85,10 +85,8 @@ theorem complete_found {c : Conn V} (p : Key × Nat → Bool) (f : Fut V) (e : K
       if isPending c.futs e.2 then
         ({ c with out := c.out.erase e, futs := c.futs.set e.2 f }, .done [e.2])
       else ({ c with out := c.out.erase e }, .done []) := by
-  unfold complete isPending
+  unfold complete
   rw [find?_eq_some_of_unique p e c.out he hp hu, eraseP_eq_erase_of_unique p e c.out hp hu]
-  simp only
-  split <;> simp_all
 
 theorem complete_none {c : Conn V} (p : Key × Nat → Bool) (f : Fut V)
     (h : ∀ x ∈ c.out, p x = false) : complete c p f = (c, .raised .protocolError) := by
